@@ -384,6 +384,9 @@ def R_forcontinue(toks):
                     if [x.text for x in out[m+1:me]] == ["continue", ";"] and (me + 1 >= bc or out[me+1].text != "else"):
                         out = out[:m+1] + [out[me]] + _mk(["else", "{"], out[me], " ") + out[me+1:bc] + _mk(["}"], out[bc], " ") + out[bc:]
                         n += 1
+                        # the new else-block is the rest of the loop body: go on inside it (a second `if … { continue; }`)
+                        k = m + 4   # bc now indexes the `}` closing the else-block
+                        continue
                     break
                 # skip one top-level statement
                 while k < bc and out[k].text != ";":
